@@ -100,8 +100,8 @@ func (s *Script) renderInstance(sb *strings.Builder, instIdx int, inst []int, on
 		splitVal[sp.Var] = inst[i]
 	}
 	var fd *folder
-	if len(s.Splits) > 0 {
-		fd = &folder{env: map[string]*sx{}}
+	{
+		fd = &folder{env: map[string]*sx{}, structs: s.Structs}
 		s.parseOnce.Do(func() {
 			s.parsed = make([]*sx, len(s.Items))
 			for i, it := range s.Items {
@@ -119,6 +119,10 @@ func (s *Script) renderInstance(sb *strings.Builder, instIdx int, inst []int, on
 			if fd != nil {
 				fd.env[p.Name] = numSx(big.NewInt(int64(v)))
 			}
+		} else if p.Def != "" {
+			line := fmt.Sprintf("(define-fun %s () %s %s)", p.Name, p.Sort.SMT(), p.Def)
+			sb.WriteString(fd.foldLine(line, parseSx(line)))
+			sb.WriteByte('\n')
 		} else {
 			fmt.Fprintf(sb, "(declare-const %s %s)\n", p.Name, p.Sort.SMT())
 		}
@@ -185,6 +189,9 @@ func (s *Script) renderInstance(sb *strings.Builder, instIdx int, inst []int, on
 			fmt.Fprintf(sb, "(echo \"OB %d %d\")\n(push 1)\n(assert %s)\n(check-sat)\n(pop 1)\n", instIdx, idx, goal)
 			continue
 		}
+		if !batch {
+			fmt.Fprintf(sb, "; %s [%s] %s\n", it.Ob.Name, it.Ob.Pos, it.Ob.Desc)
+		}
 		pendIdx = append(pendIdx, idx)
 		pendGoals = append(pendGoals, goal)
 		if !batch {
@@ -221,7 +228,7 @@ var chunkMax = func() int {
 			return n
 		}
 	}
-	return 64
+	return 16
 }()
 
 type rawResult struct {
@@ -341,6 +348,15 @@ func (r *Runner) account(name string, d time.Duration, n int) {
 // Run discharges every obligation of the scripts.
 func (r *Runner) Run(scripts []*Script) []*ObResult {
 	header := Prelude() + r.vc.globalDecls()
+	structs := map[string][]string{}
+	for name, ss := range r.vc.structSorts {
+		for _, fl := range ss.Fields {
+			structs[name] = append(structs[name], fl.Name)
+		}
+	}
+	for _, sc := range scripts {
+		sc.Structs = structs
+	}
 	type job struct {
 		sc    *Script
 		insts [][]int
@@ -451,10 +467,14 @@ func (r *Runner) runJob(header string, sc *Script, insts [][]int, base int) []*O
 		return results
 	}
 	run := func(sel []int, batch bool) (map[[2]int]rawResult, string, error, time.Duration, int) {
+		to := r.TimeoutMs
+		if ninst > 100 && to > 1500 {
+			to = 1500 // split instances are small queries; the individual retry uses the full timeout
+		}
 		if batch {
-			sv = solverCmd(r.Primary, r.TimeoutMs/5)
+			sv = solverCmd(r.Primary, to/3)
 		} else {
-			sv = solverCmd(r.Primary, r.TimeoutMs)
+			sv = solverCmd(r.Primary, to)
 		}
 		var sb strings.Builder
 		sb.WriteString(header)
